@@ -20,7 +20,8 @@ Dom(k, L) ==
     CASE k = "doc"       -> 1..3
       [] k = "xref"      -> {"table", "stream"}
       \* compressed objects need a cross-reference stream (7.5.8)
-      [] k = "objstm"    -> IF L["xref"] = "stream" THEN {"none", "dicts", "dictsflate"} ELSE {"none"}
+      \* "split": the integers (stream lengths) in a container of their own whose /Length is itself given by reference
+      [] k = "objstm"    -> IF L["xref"] = "stream" THEN {"none", "dicts", "dictsflate", "split"} ELSE {"none"}
       [] k = "filter"    -> {"none", "fl", "ahx", "a85", "a85fl", "ahxfl", "flpng", "fltiff"}
       [] k = "length"    -> {"direct", "refBefore", "refAfter"}
       [] k = "size"      -> {"small", "big", "huge"}
